@@ -53,20 +53,45 @@ build_cli() {
   fi
 }
 
+build_sched() {
+  # C08: every range over a map becomes a scheduler choice point (source-to-source overlay), separate binary
+  ( cd "$ROOT/tools/maprewrite" && go build -o "$ROOT/build/maprewrite" . ) 2>> "$ROOT/build/build$TAG.log" || { cat "$ROOT/build/build$TAG.log" >&2; echo "HARNESS-ERROR: maprewrite does not build" >&2; exit 2; }
+  rm -rf "$ROOT/build/mapsched$TAG"
+  if ! "$ROOT/build/maprewrite" "$REPO" "$ROOT/build/mapsched$TAG" "$OVERLAY" "$ROOT/build/overlay.sched$TAG.json" "$ROOT/overlay/mapsched/sched.go.src" > "$ROOT/build/maprewrite$TAG.log" 2>&1; then
+    cat "$ROOT/build/maprewrite$TAG.log" >&2
+    echo "HARNESS-ERROR: the tree under test cannot be instrumented (does it build?)" >&2
+    exit 2
+  fi
+  if ! go build -tags "verif verif_mapsched" -overlay "$ROOT/build/overlay.sched$TAG.json" -o "$ROOT/build/vcheck.sched$TAG" ./cmd/vcheck 2>> "$ROOT/build/build$TAG.log"; then
+    cat "$ROOT/build/build$TAG.log" >&2
+    echo "HARNESS-ERROR: the instrumented tree does not build" >&2
+    exit 2
+  fi
+}
+
 case "${1:-}" in
   setup)
     build
     build_cli
+    build_sched
     echo "setup ok"
     ;;
   replay)
     build
     build_cli
+    if grep -q '"property": "C08"' "$2" 2>/dev/null; then
+      build_sched
+      exec "$ROOT/build/vcheck.sched$TAG" replay "$2"
+    fi
     exec "$BIN" replay "$2"
     ;;
   C*)
     build
     case "$1" in C03|C08|C12|C13|C18) build_cli ;; esac
+    if [ "$1" = C08 ]; then
+      build_sched
+      exec "$ROOT/build/vcheck.sched$TAG" "$1" "${2:-${VERIF_TIER:-quick}}"
+    fi
     exec "$BIN" "$1" "${2:-${VERIF_TIER:-quick}}"
     ;;
   *)
